@@ -9,7 +9,7 @@ BOUNDS = {
     "quick": "two trains; ISI/SPIKE-Sync/order profiles and scalars with 0..3 spikes each (n1+n2<=4), SPIKE (plain and RI) "
              "with 0..2 spikes each; shift by a symbolic real, scaling by the dyadic factors 2, 1/4 and by 3 together with "
              "MRTS and max_tau, reversal about the midpoint of the recording; MRTS/max_tau omitted and symbolic > 0; py and pyx",
-    "thorough": "ISI/sync/order n1+n2<=6 (max 3 each), SPIKE n1+n2<=5 (max 3 each)",
+    "thorough": "ISI/sync/order n1+n2<=6 (max 3 each), SPIKE n1+n2<=4 (max 3 each) for all transforms and parameter settings",
 }
 OUTSIDE = "symbolic scale factors (would make every branch condition non-linear); lists of more than two trains (C06 reduces them to pairs)"
 ASSUMPTIONS = ["both runs share the symbolic inputs, so the transformed profile is compared with the profile of the transformed input for all reals",
@@ -25,7 +25,7 @@ def configs(tier):
         for meas in MEASURES:
             spike = meas.startswith("spike")
             nmax = (2 if q else 3) if spike else 3
-            tot = ((4 if q else 5) if spike else (4 if q else 6))
+            tot = (4 if spike else (4 if q else 6))
             for n1 in range(nmax + 1):
                 for n2 in range(nmax + 1):
                     if n1 + n2 > tot:
